@@ -133,8 +133,13 @@ def _attribute(asm, msg, spans, rendered):
         # failure inside template text (a lemma or hand-written glue)
         ln = (prim[0].get("line_start", 1) - 1) if prim else 0
         return Failure("<template>", "template-line-%d" % (ln + 1), (), msg, "unit line %d" % (ln + 1), rendered, "")
-    if clause is not None and clause.fn == fn and clause.kind in ("ensures", "invariant"):
+    if clause is not None and clause.fn == fn and clause.kind == "ensures":
         return Failure(fn, clause.label, clause.props, msg, where, rendered, clause.text)
+    if clause is not None and clause.fn == fn and clause.kind == "invariant":
+        # a loop invariant is scaffolding for every postcondition of the function: once it fails, Verus has only
+        # *assumed* it for the rest of the body, so no property served by this function is established any more
+        props = tuple(clause.props) + tuple(x for x in asm.fns.get(fn, {}).get("props", ()) if x not in clause.props)
+        return Failure(fn, clause.label, props, msg, where, rendered, clause.text)
     # precondition of a callee, overflow, bounds, assert: the function's safety obligation
     props = asm.fns.get(fn, {}).get("props", ())
     extra = ""
